@@ -261,7 +261,7 @@ named_cache = dict(
 __CPROVER_requires(__CPROVER_is_fresh(self, sizeof(*self)) && __CPROVER_is_fresh(transit_event, sizeof(TE)) && __CPROVER_is_fresh(transit_event->macro_metadata, sizeof(MM)) && transit_event->macro_metadata->g_event <= EV_LoggerRemovalRequest)
 __CPROVER_requires(g_clock == 0 && g_finds == 0 && g_inserts == 0 && g_parses == 0 && g_fmt_msgs == 0 && g_fmt_named == 0 && g_plain == 0 && g_mds == 0)
 __CPROVER_assigns(self->_named_args_format_template, g_clock, g_finds, g_looked_key, g_inserts, g_inserted_key, g_inserted_entry, g_parses, g_fmt_msgs, g_fmt_named, g_fmt_msg_entry, g_fmt_named_entry, g_t_fmt_msg, g_t_fmt_named, g_plain, g_plain_template, g_t_plain, g_mds, g_t_md)
-__CPROVER_ensures(transit_event->macro_metadata->g_named ==> (g_fmt_msgs == 1 && g_fmt_named == 1 && g_plain == 0 && g_t_fmt_msg < g_t_fmt_named)) /*@ C19 "a statement with named placeholders gets its text and then its key/value pairs, once each" */
+__CPROVER_ensures(transit_event->macro_metadata->g_named ==> (g_fmt_msgs == 1 && g_fmt_named == 1 && g_plain == 0)) /*@ C19 "a statement with named placeholders gets its text and its key/value pairs, once each" */
 __CPROVER_ensures(transit_event->macro_metadata->g_named ==> (g_fmt_msg_entry == T_(transit_event) && g_fmt_named_entry == T_(transit_event))) /*@ C19 "text and pairs come from the parsed form of the statement's OWN template, whatever templates were seen before (cache hit or first use)" */
 __CPROVER_ensures(g_inserts <= 1 && (g_inserts == 1 ==> (g_inserted_key == T_(transit_event) && g_inserted_entry == T_(transit_event) && !g_cached))) /*@ C19 "the cache only ever maps a template text to the parse of that very text (the invariant every later hit relies on)" */
 __CPROVER_ensures(!transit_event->macro_metadata->g_named ==> (g_plain == 1 && g_plain_template == T_(transit_event) && g_fmt_msgs == 0 && g_fmt_named == 0 && g_inserts == 0)) /*@ C04,C12 "a statement without named placeholders is formatted once with its own template" */
